@@ -358,6 +358,35 @@ def check_leaf(c):
             wantd = float(np.linalg.norm(want - ydat)) / nd
             res.check(abs(aod - wantd) <= 1e-10 * (1 + wantd), 'accuracy_on_data.long_batch', dict(case, rows=L),
                       lambda: 'data set of %d rows: accuracy_on_data %r vs %r' % (L, aod, wantd), tags)
+    # index arguments in other integer dtypes / containers, and integer-typed cores (read-only observers)
+    res.ev()
+    want = root.D[tuple(grid.T)]
+    ex = exact_regime(root.Y)
+    tl = 0.0 if ex else 64.0 * 64 * U * float(root.B.max())
+    with warnings.catch_warnings():
+        warnings.simplefilter('ignore')
+        okd = True
+        for dt in (np.int32, np.int16, np.uint8, np.uint16, np.int8):
+            gi = grid.astype(dt)
+            okd = okd and np.all(np.abs(teneva.get_many(root.Y, gi) - want) <= tl) and np.all(np.abs(teneva.get(root.Y, gi) - want) <= tl)
+            okd = okd and abs(teneva.get(root.Y, gi[-1]) - want[-1]) <= tl
+        okd = okd and abs(teneva.get(root.Y, tuple(int(x) for x in grid[-1])) - want[-1]) <= tl
+        okd = okd and np.all(np.abs(teneva.get_many(root.Y, [tuple(int(x) for x in r_) for r_ in grid]) - want) <= tl)
+    res.check(bool(okd), 'get.index_dtypes', case, 'element access depends on the integer dtype / container of the multi-indices', tags)
+    if c['pat'] in ('intA', 'intB'):
+        res.ev()
+        Yi = [G.astype(np.int64) for G in root.Y]
+        with warnings.catch_warnings():
+            warnings.simplefilter('ignore')
+            oki = np.array_equal(teneva.full(Yi), root.D) and np.array_equal(teneva.get_many(Yi, grid), want)
+            oki = oki and teneva.sum(Yi) == root.D.sum() and teneva.mul_scalar(Yi, Yi) == float((root.D * root.D).sum())
+            oki = oki and abs(teneva.norm(Yi) - np.sqrt(float((root.D * root.D).sum()))) <= 1e-12 * (1 + np.sqrt(float((root.D * root.D).sum())))
+            Zi = teneva.add(Yi, Yi)
+            Mi = teneva.mul(Yi, Yi)
+            oki = oki and np.array_equal(ref.dense(Zi), 2 * root.D) and np.array_equal(ref.dense(Mi), root.D * root.D)
+            vst, pst = teneva.mul_scalar(Yi, Yi, use_stab=True)
+            oki = oki and abs(vst * 2.0 ** pst - float((root.D * root.D).sum())) <= 1e-12 * (1 + float((root.D * root.D).sum()))
+        res.check(bool(oki), 'int_typed_cores', case, 'integer-typed cores (int64) are not evaluated like the same values stored as floats', tags)
     nums = c.get('nums', NUMS)
     while frontier:
         S = frontier.pop(0)
